@@ -297,3 +297,38 @@ Proof.
   intros Hn Hd Hi Hr Hs. rewrite <- find_neighbors_release_same.
   exact (@nbr_is_geometric_set_lemma _ (flocq_FloatIntExact_sq tab) Release ntotal ndim index r Hn Hd Hi Hr Hs).
 Qed.
+
+Theorem flocq_nbr_contains_centre_release tab ntotal ndim index r :
+  1 <= ntotal <= 2147483648 -> 1 <= ndim -> 0 <= index < ntotal ->
+  @fle (flocq_ops tab) f_zero r = true -> sizes_ok ntotal ndim ->
+  exists l, @find_neighbors (flocq_ops tab) Release ntotal ndim index r = Ok (Some l) /\ In index l.
+Proof.
+  intros Hn Hd Hi Hr Hs.
+  destruct (@nbr_contains_centre_lemma _ (flocq_FloatIntExact_sq tab) Release ntotal ndim index r Hn Hd Hi Hr Hs)
+    as (l & H & I).
+  rewrite find_neighbors_release_same in H. eauto.
+Qed.
+
+Theorem flocq_nbr_symmetric_release tab ntotal ndim i j r :
+  1 <= ntotal <= 2147483648 -> 1 <= ndim -> 0 <= i < ntotal -> 0 <= j < ntotal ->
+  @flt (flocq_ops tab) r f_zero = false -> sizes_ok ntotal ndim ->
+  exists li lj, @find_neighbors (flocq_ops tab) Release ntotal ndim i r = Ok (Some li) /\
+                @find_neighbors (flocq_ops tab) Release ntotal ndim j r = Ok (Some lj) /\
+                (In j li <-> In i lj).
+Proof.
+  intros Hn Hd Hi Hj Hr Hs.
+  destruct (@nbr_symmetric_lemma _ (flocq_FloatIntExact_sq tab) Release ntotal ndim i j r Hn Hd Hi Hj Hr Hs)
+    as (li & lj & H1 & H2 & I).
+  rewrite find_neighbors_release_same in H1, H2. eauto.
+Qed.
+
+(* the reading lemmas of [within] do not involve the profile or the oracle: every table *)
+Theorem flocq_within_antitone tab D1 D2 r :
+  0 <= D1 -> D1 <= D2 -> D2 < two24 ->
+  @within (flocq_ops tab) D2 r = true -> @within (flocq_ops tab) D1 r = true.
+Proof. exact (@within_antitone_lemma _ (flocq_FloatIntExact_sq tab) D1 D2 r). Qed.
+
+Theorem flocq_within_integer_radius tab D R :
+  0 <= D < two24 -> 0 <= R < 4096 ->
+  @within (flocq_ops tab) D (@f_of_usize (flocq_ops tab) R) = (D <=? R * R).
+Proof. exact (@within_integer_radius_lemma _ (flocq_FloatIntExact_sq tab) D R). Qed.
